@@ -1,5 +1,6 @@
 import PhysisModel.Proofs.SoftFloat
 import PhysisModel.Proofs.MdlHeaders
+import PhysisModel.Proofs.MdlWriteBytes
 import PhysisModel.Model.MdlWrite
 import PhysisModel.Spec.MdlEdit
 /-!
@@ -88,5 +89,80 @@ theorem c07_stream_offsets (es : List Edit) (m m' : MDL) (h0 : Inv m)
 example : ∃ m', exHistory.foldlM Mdl.applyEdit exOut = .ok m' ∧ HeaderOK m' := by
   obtain ⟨m', h⟩ := exists_ok (r := exHistory.foldlM Mdl.applyEdit exOut) (by rfl)
   exact ⟨m', h, c07_headers_consistent exHistory exOut m' (by decide +kernel) h⟩
+
+/-! ## write ∘ parse -/
+
+/-- **Writing a parsed model and parsing the result gives the same model** — for every abstract
+model in C07's quantifier (`WF`, `Canonical`: version ≤ 5, canonical attribute encodings, no
+terrain-shadow tables; any LOD / mesh / stream / declaration structure, shapes, bone tables): the
+model `m0` parsed from its file is written back as **exactly the same bytes**, so parsing the
+written buffer returns `m0` again — file header, `model_data`, vertices, indices, sub-meshes,
+shapes, raw streams, names. -/
+theorem c07_write_parse (a : AbstractModel) (h : WF a = true) (hcan : Canonical a = true)
+    (v : View) (hv : view a = some v) :
+    ∃ m0 buf, fromExisting (encodeMdl a) = .ok m0 ∧ writeToBuffer m0 = .ok buf ∧
+      buf = encodeMdl a ∧ fromExisting buf = .ok m0 ∧ m0.view = v ∧
+      m0.fileHeader = fileHeader a ∧ m0.modelData = modelData a :=
+  write_parse a h hcan v hv
+
+/-- a concrete canonical model: 2 vertices, Position Half4 + Normal Half4 in stream 0 (padding
+lanes 1.0 / 0.0), BiTangent + Color ByteFloat4 in stream 1 with 2 zero slack bytes, 3 indices
+padded to 8 words, one sub-mesh starting at the mesh's start, one bone -/
+def canonicalSample : AbstractModel :=
+  { version := 0x1000005, fileMaterialCount := 1, indexBufferStreamingEnabled := false,
+    hasEdgeGeometry := false, lodCount := 1,
+    lods := [
+      { meshes := [
+          { decl := [⟨0, 0, 14, 0, 0⟩, ⟨0, 8, 14, 3, 0⟩, ⟨1, 0, 8, 6, 0⟩, ⟨1, 4, 8, 7, 0⟩]
+            vertexCount := 2
+            streams := [⟨16, [0x00, 0x3C, 0x00, 0xC0, 0x01, 0x00, 0x00, 0x3C,
+                              0x00, 0x38, 0xFF, 0x7B, 0x00, 0x80, 0x00, 0x00,
+                              0x66, 0x2E, 0x00, 0xBC, 0x00, 0x7C, 0x00, 0x3C,
+                              0x00, 0x00, 0x00, 0x3C, 0x00, 0x00, 0x00, 0x00]⟩,
+                        ⟨10, [1, 128, 254, 255, 0, 1, 127, 255, 0, 0,
+                              255, 0, 77, 0, 200, 100, 50, 25, 0, 0]⟩]
+            indices := [0, 1, 0], indexPad := 5, materialIndex := 0, boneTableIndex := 0
+            submeshes := [⟨0, 3, 0, 0, 1⟩] }],
+        mid := List.replicate 28 0, edgeGeometryDataOffset := 0, polygonCount := 1 },
+      { meshes := [], mid := List.replicate 28 0, edgeGeometryDataOffset := 0, polygonCount := 0 },
+      { meshes := [], mid := List.replicate 28 0, edgeGeometryDataOffset := 0, polygonCount := 0 }],
+    misc := ⟨0x3F800000, 0x08, 0, 0, 0, 0, 0, 0, 0, 0, 0, 0, 0⟩,
+    attributes := [], bones := [[0x6A, 0x5F, 0x6B, 0x61, 0x6F]], materials := [[0x2F, 0x6D]],
+    shapes := [], shapeMeshes := [], shapeValues := [], elementIds := [],
+    terrainShadowMeshes := [], terrainShadowSubmeshes := [],
+    boneTables := [⟨List.replicate 64 0, 1⟩], boneTablesV2 := [], submeshBoneMap := [0],
+    padding := [0xAA, 0xBB], boundingBoxes := List.replicate 128 0,
+    boneBoundingBoxes := [List.replicate 32 0] }
+
+/-- non-vacuity of `c07_write_parse` -/
+example : WF canonicalSample = true ∧ Canonical canonicalSample = true ∧
+    (view canonicalSample).isSome = true := by
+  decide +kernel
+
+/-- For **any** in-memory model (in particular after any edit history): if the version is ≤ 5, the
+tables are consistent with their counts, and every vertex / index write lands at or after the end
+of the runtime block, then re-parsing the written buffer returns the same `file_header` and the
+same `model_data` (the writer emits exactly the format's runtime block — each bone-map size only
+for its version — and the geometry writes never touch it).
+
+Full statement kept visible (not proved for edited models; tied by correspondence only —
+`edit` / `wbytes` cases):
+
+  theorem c07_edit_then_parse (a) (es) (a') (h : applyEdits a es = some a') (WF, Canonical for a, a') :
+      parse (write (edits (parse (encodeMdl a)))) reports `view a'` and `HeaderFlags.allOk`. -/
+theorem c07_write_parse_headers_partial (m : MDL) (hv : isV5 m.fileHeader.version = true)
+    (hok : modelDataOk m.fileHeader m.modelData = true) (hw : writesAfterHeader m = true)
+    (buf : Bytes) (hb : writeToBuffer m = .ok buf) :
+    ∃ rest rest', parseFileHeader buf = .ok (m.fileHeader, rest) ∧
+      parseModelData m.fileHeader rest = .ok (m.modelData, rest') :=
+  write_parse_headers m hv hok hw buf hb
+
+/-- Re-encoding a decoded element reproduces its stored bytes for every writable `(usage, type)`
+pair and every canonical raw value (lifted from `c07_codec_reencode` to whole elements, incl. the
+1.0 / 0.0 padding lanes and the handedness byte). -/
+theorem c07_element_reencode (u t : UInt8) (raw : Bytes) (v : Vertex)
+    (hw : writable u t = true) (hl : raw.length = typeSize t) (hc : canonicalRaw u t raw = true) :
+    encodeElement u t (stdDecode u t raw v) = .ok raw :=
+  encodeElement_canonical u t raw v hw hl hc
 
 end Physis.C07
